@@ -20,7 +20,7 @@ func init() {
 		Explain: "Decides on every path: the producer dispatcher applies interceptors only on a message's first pass (guard msg.retries == 0, which also excludes the internal markers) (C18.once-producer); in the consumer feeder every send of a message on Messages() is preceded by exactly one application of the interceptors to that element — in particular the slow-reader loop, which restarts at the element the outer loop already intercepted, must not intercept it again (C18.once-consumer); " +
 			"OnSend/OnConsume are invoked only inside the recover wrapper, whose deferred closure calls recover() (C18.contained); interceptor slices are walked in index order (C18.order). " +
 			"NOT covered: what an interceptor does to the message; panics outside the interceptor call itself.",
-		Rules: []func(*Ctx){c18Producer, c18Consumer, c18Contained, c01Retry, c18ResetOnHandBack, c01ErrLost},
+		Rules: []func(*Ctx){c18Producer, c18Consumer, c18Contained, c01Retry, c18ResetOnHandBack, c01ErrLost, c18RetryCountKept},
 	})
 }
 
@@ -453,7 +453,25 @@ func c18ResetOnHandBack(c *Ctx) {
 			return false
 		}
 	}
-	for _, t := range []struct{ fn, ch string }{{"asyncProducer.returnError", "asyncProducer.errors"}, {"asyncProducer.returnSuccesses", "asyncProducer.successes"}} {
+	// every function of the producer that sends on one of the two channels (returnError and returnSuccesses today; the
+	// dispatcher's rejection of input after shutdown hands back a message that never got further than `retries == 0`)
+	type site struct{ fn, ch string }
+	sites := []site{{"asyncProducer.returnError", "asyncProducer.errors"}, {"asyncProducer.returnSuccesses", "asyncProducer.successes"}}
+	for _, ch := range []string{"asyncProducer.errors", "asyncProducer.successes"} {
+		for _, f := range p.Fns {
+			if f.Blocks == nil || rootOf(f).Pkg != p.Sarama || !p.inFile(f, "async_producer.go") {
+				continue
+			}
+			n := p.Name(f)
+			if n == "asyncProducer.returnError" || n == "asyncProducer.returnSuccesses" || n == "asyncProducer.dispatcher" {
+				continue
+			}
+			if hasItem(f, SendOn(FieldLoad(ch), nil)) {
+				sites = append(sites, site{n, ch})
+			}
+		}
+	}
+	for _, t := range sites {
 		fn := c.NeedFn(rule, t.fn)
 		if fn == nil {
 			continue
@@ -465,7 +483,11 @@ func c18ResetOnHandBack(c *Ctx) {
 			continue
 		}
 		for _, s := range sends {
-			snd := s.In.(*ssa.Send)
+			snd, isSend := s.In.(*ssa.Send)
+			if !isSend {
+				c.Fail(rule, fn, "reset-before-send:"+t.ch, s.Instr(), "a message is handed back on "+t.ch+" from a select case: not analysed", nil)
+				continue
+			}
 			// the message handed back: the value sent, or the Msg field of the ProducerError literal sent
 			var msg ssa.Value
 			if isPtrToNamed(snd.X.Type(), "ProducerMessage") {
